@@ -445,7 +445,8 @@ class LoopSpec:
     loops (None for `while`).  kinds: kinds of variables first assigned inside the body.
     variant(env, st, i) -> Int term that must decrease and stay >= 0 (while loops)."""
 
-    def __init__(self, inv=None, kinds=None, variant=None, modifies=None, hints=None, fall_through=None, exit=None):
+    def __init__(self, inv=None, kinds=None, variant=None, modifies=None, hints=None, fall_through=None, exit=None, step=None):
+        self.step = step                   # one-iteration contract: step(ex, before, after, events) -> obligations
         self.fall_through = fall_through   # search loops: fall_through(env, st, x) -> facts when the body falls through for member x
         self.exit = exit                   # search loops: exit(env, st) -> facts after the loop (forall-closure of fall_through)
         self.hints = hints          # hints(env, st, i) -> lemma instances (valid facts) assumed in the body
@@ -1245,7 +1246,7 @@ class FuncVC:
                 self.theory.enter(ex, self)
                 kind, res = "return", Conc(None)
                 try:
-                    if self.is_generator():
+                    if self.is_generator() and not getattr(self.contract, "generator_body", False):
                         raise _Return(self.generator_result(ex))
                     ex.stmts(self.fn.body)
                     ex.site = "fall-off-end"
